@@ -437,6 +437,9 @@ pub fn earley_tie(world: &World, g: &Gram, sigma: &[u8], seed: u64, tag: usize, 
     let syms = cg.syms.iter().map(|(rules, nullable, lexeme, _, _)| format!("{}/{}/{}", if rules.is_empty() { "-".to_string() } else { rules.iter().map(|r| r.to_string()).collect::<Vec<_>>().join("+") }, *nullable as u8, lexeme.map(|l| l.to_string()).unwrap_or("-".into()))).collect::<Vec<_>>().join(";");
     let id = 100_000 + tag;
     mb.push_guard(format!("ey def {id} {} {} {} {}", cg.start, csv(cg.rhs.iter()), csv(cg.lhs_of.iter()), syms), "ok".into(), tag);
+    // premise of the valid-prefix theorem: the grammars of this property are productive by construction, so
+    // every symbol of the compiled grammar must be productive too
+    mb.push(format!("ey prod {id}"), "ok 1".into(), tag);
     let mut rng = Rng::new(seed ^ 0xe4);
     let mut seen: std::collections::HashSet<Vec<Vec<u32>>> = std::collections::HashSet::new();
     for _walk in 0..6 {
